@@ -449,6 +449,41 @@ func observeModule(c *Chain, ctx sdk.Context, m string) interface{} {
 		v := exportJ(c, ctx, "staking").(map[string]interface{})
 		v["bonded_pool"] = modBal(c, ctx, stakingtypes.BondedPoolName)
 		v["notbonded_pool"] = modBal(c, ctx, stakingtypes.NotBondedPoolName)
+		// a flat view for the validator-set and unbonding monitors (C09)
+		sk := c.App.VerifStakingKeeper()
+		vals := []interface{}{}
+		for _, val := range sk.GetAllValidators(ctx) {
+			pk, err := val.ConsPubKey()
+			pkh := ""
+			if err == nil {
+				pkh = Hex(pk.Bytes())
+			}
+			vals = append(vals, map[string]interface{}{"op": Hex(val.GetOperator()), "pk": pkh, "tokens": val.Tokens.String(), "status": int(val.Status),
+				"jailed": val.Jailed, "shares": val.DelegatorShares.String(), "minself": val.MinSelfDelegation.String(),
+				"unbonding_time": fmt.Sprint(val.UnbondingTime.UnixNano()), "power": val.ConsensusPower()})
+		}
+		v["vals2"] = vals
+		ubds := []interface{}{}
+		sk.IterateUnbondingDelegations(ctx, func(_ int64, ubd stakingtypes.UnbondingDelegation) bool {
+			for _, e := range ubd.Entries {
+				ubds = append(ubds, map[string]interface{}{"del": hexOfBech(ubd.DelegatorAddress), "val": hexOfBech(ubd.ValidatorAddress),
+					"balance": e.Balance.String(), "t": fmt.Sprint(e.CompletionTime.UnixNano()), "h": e.CreationHeight})
+			}
+			return false
+		})
+		v["ubds2"] = ubds
+		reds := []interface{}{}
+		sk.IterateRedelegations(ctx, func(_ int64, red stakingtypes.Redelegation) bool {
+			for _, e := range red.Entries {
+				reds = append(reds, map[string]interface{}{"del": hexOfBech(red.DelegatorAddress), "src": hexOfBech(red.ValidatorSrcAddress), "dst": hexOfBech(red.ValidatorDstAddress),
+					"t": fmt.Sprint(e.CompletionTime.UnixNano()), "h": e.CreationHeight})
+			}
+			return false
+		})
+		v["reds2"] = reds
+		sp := sk.GetParams(ctx)
+		v["max_validators"] = sp.MaxValidators
+		v["unbonding_ns"] = fmt.Sprint(sp.UnbondingTime.Nanoseconds())
 		return v
 	case "distr":
 		fp := c.App.VerifDistrKeeper().GetFeePool(ctx)
